@@ -11,7 +11,8 @@
 // () for a quiet op
 //
 //	r_j = index in names of GetNodeBy(key_j); -1 the call panicked (empty ring);
-//	-2 a string that is not in the table; -3 the op itself panicked.
+//	-2 a string that is not in the table; -3 the op itself panicked; -4 the history's
+//	calls did not return within 20 s.
 //	repeat_equal = 1 iff a second round of the same lookups, made in reverse
 //	order, gave the same answers.
 //	cache_len = len(sortedHash); cache_ok = 1 iff sortedHash is exactly the sorted key
@@ -24,6 +25,7 @@ import (
 	"io"
 	"log"
 	"sort"
+	"time"
 
 	consistent "qchen.fun/fatchoy/collections/consistent"
 	. "verifharness/common"
@@ -66,7 +68,42 @@ func decode(in Sx) history {
 }
 
 // play runs the real code on a history and returns, per op, the answers to all keys.
+var stuckHistories int // histories during which a call did not return
+
+// play runs playRaw under a watchdog: if the implementation does not come back within 20 s
+// every observed answer of the history is recorded as -4 and the goroutine is abandoned
 func play(h history) (res [][]int64, rep []bool, cache [][2]int64) {
+	type out3 struct {
+		res   [][]int64
+		rep   []bool
+		cache [][2]int64
+	}
+	done := make(chan out3, 1)
+	go func() {
+		r, p, c := playRaw(h)
+		done <- out3{r, p, c}
+	}()
+	select {
+	case o := <-done:
+		return o.res, o.rep, o.cache
+	case <-time.After(20 * time.Second):
+	}
+	stuckHistories++
+	for _, o := range h.ops {
+		if o[0] >= 2 {
+			res, rep, cache = append(res, nil), append(rep, true), append(cache, [2]int64{-1, 1})
+			continue
+		}
+		cur := make([]int64, len(h.keys))
+		for j := range cur {
+			cur[j] = -4
+		}
+		res, rep, cache = append(res, cur), append(rep, true), append(cache, [2]int64{0, 1})
+	}
+	return
+}
+
+func playRaw(h history) (res [][]int64, rep []bool, cache [][2]int64) {
 	idx := map[string]int64{}
 	for i, n := range h.names {
 		if _, dup := idx[n]; !dup {
@@ -334,6 +371,9 @@ func randName(rng *Rng, class int) string {
 	case 3: // arbitrary bytes (not necessarily UTF-8), possibly empty
 		return string(rng.Bytes(rng.Intn(6)))
 	}
+	if rng.Chance(1, 4) { // long names
+		return fmt.Sprintf("srv-%d.", rng.Intn(5)) + string(rng.Bytes(rng.PickInt(14, 30, 62, 126, 254))) + fmt.Sprintf(":%d", 8000+rng.Intn(4))
+	}
 	return fmt.Sprintf("srv-%d.example:%d", rng.Intn(5), 8000+rng.Intn(4))
 }
 
@@ -349,6 +389,8 @@ func randKeys(rng *Rng, n int, names []string) []string {
 			k = string(rng.Bytes(rng.Intn(5)))
 		case 2:
 			k = "用户" + fmt.Sprint(rng.Intn(100000))
+		case 3: // long keys (the hash loop runs over every byte)
+			k = fmt.Sprintf("long-%d-", rng.Intn(1000)) + string(rng.Bytes(rng.PickInt(15, 16, 17, 31, 32, 33, 63, 64, 65, 255, 256, 300)))
 		default:
 			k = fmt.Sprintf("key%d", rng.Intn(1000000))
 		}
@@ -405,9 +447,16 @@ func gen(a Args, out *Out) {
 	}
 
 	emit := func(kind string, h history) {
+		if stuckHistories > 0 { // the implementation hangs: stop generating
+			return
+		}
 		// (a) the recorded case: model and property are evaluated in Coq
 		res, rep, cache := play(h)
 		out.Case(kind, len(h.ops) >= 2, h.sx(), obsSx(res, rep, cache))
+		if stuckHistories > 0 {
+			out.Violation("C17/hang/"+kind, "a call (AddNode/RemoveNode/GetNodeBy) did not return within 20 s", List(h.sx(), obsSx(res, rep, cache)))
+			return
+		}
 		out.Count(fmt.Sprintf("ops:%02d-%02d", len(h.ops)/5*5, len(h.ops)/5*5+4))
 		for _, o := range h.ops {
 			out.Count([]string{"op:add", "op:remove", "op:add-quiet", "op:remove-quiet"}[o[0]])
